@@ -195,7 +195,8 @@ Inductive case :=
 | CFull (script : list bool) (dflt : bool) (alnum space : list N) (a b : str) (em es : expect (list seg))
 | CSem (alnum space : list N) (d : list seg) (e : expect (list seg))
 | CMerge (d : list seg) (e : expect (list seg))
-| CRealign (tbl : list (N * (ttype * option N))) (d : list seg) (er : expect (list seg)) (ej : expect (list jseg)).
+| CRealign (tbl : list (N * (ttype * option N))) (d : list seg) (er : expect (list seg)) (ej : expect (list jseg))
+| CBis (script : list bool) (dflt : bool) (a b : str).
 Definition op_eqb (x y : op) := Z.eqb (op_code x) (op_code y).
 Definition seg_eqb (x y : seg) := op_eqb (fst x) (fst y) && str_eqb (snd x) (snd y).
 Definition jseg_eqb (x y : jseg) := match x, y with
@@ -215,7 +216,21 @@ Definition cc_of (alnum space : list N) : charcls :=
 Definition clock_of (script : list bool) (dflt : bool) : nat -> bool := fun i => nth i script dflt.
 Fixpoint lookup (tbl : list (N * (ttype * option N))) (c : N) := match tbl with
   | [] => None | (k, v) :: r => if N.eqb k c then Some v else lookup r c end.
+(* the hypothesis of C16_no_error_partial (XV.DMPTotalMain.bisect_safe), as a boolean test on one input *)
+Local Open Scope Z_scope.
+Definition heads_differ (a b : str) := match a, b with x :: _, y :: _ => negb (N.eqb x y) | _, _ => true end.
+Definition bis_pre (a b : str) : bool :=
+  (2 <=? zlen a) && (2 <=? zlen b) && heads_differ a b && heads_differ (rev a) (rev b) &&
+  (find (if zlen a >? zlen b then b else a) (if zlen a >? zlen b then a else b) =? -1).
+Definition bis_ok (clock : nat -> bool) (a b : str) : bool :=
+  match bisect_core a b clock 0 with
+  | Ok (KFound x y, _) => (0 <=? x) && (x <=? zlen a) && (0 <=? y) && (y <=? zlen b) && (0 <? x + y) && (x + y <? zlen a + zlen b)
+  | Ok (KNone, _) => true
+  | Err _ => false
+  end.
+Local Close Scope Z_scope.
 Definition check (c : case) : bool := match c with
+  | CBis script dflt a b => negb (bis_pre a b) || bis_ok (clock_of script dflt) a b
   | CFull script dflt alnum space a b em es =>
       agree (list_eqb seg_eqb) (diff_main (cc_of alnum space) (clock_of script dflt) a b) em &&
       match em with EOk d => agree (list_eqb seg_eqb) (diff_cleanupSemantic (cc_of alnum space) d) es | EErr _ => true end
@@ -416,6 +431,19 @@ def gen_cases(run, rng):
         for b in strs:
             if len(a) <= 3 and len(b) <= 3:
                 cases.append({"kind": "full", "a": a, "b": b, "script": [], "dflt": True, "grp": "exhaustive-timeout"})
+    # the open obligation of C16_no_error_partial (bisect_safe), tested on the model: every pair over {a,b}
+    bl = 6 if quick else 8
+    bstrs = ["".join(p) for k in range(2, bl + 1) for p in itertools.product("ab", repeat=k)]
+    for a in bstrs:
+        for b in bstrs:
+            if a[0] != b[0] and a[-1] != b[-1] and a not in b and b not in a:
+                cases.append({"kind": "bis", "a": a, "b": b, "script": [], "dflt": False, "grp": "bisect_safe"})
+    for _ in range(300 if quick else 3000):
+        kind = rng.choice(["letters", "words", "repeats"])
+        a = rand_text(rng, kind)
+        b = mutate(rng, a) if rng.random() < 0.6 else rand_text(rng, kind)
+        script, dflt = rand_clock(rng)
+        cases.append({"kind": "bis", "a": "<" + a + ">", "b": "[" + b + "]", "script": script, "dflt": dflt, "grp": "bisect_safe"})
     for _ in range(600 if quick else 5000):
         cases.append({"kind": "sem", "d": rand_segs(rng), "grp": "sem"})
     for _ in range(600 if quick else 5000):
@@ -465,6 +493,8 @@ def run_impl(c):
     if k == "full":
         m, s, ticks = impl_full(c["a"], c["b"], c["script"], c["dflt"])
         c["main"], c["sem"], c["ticks"] = m, s, ticks
+    elif k == "bis":
+        pass      # a test of the model only (the hypothesis of C16_no_error_partial)
     elif k == "sem":
         c["out"] = impl_sem(c["d"])
     elif k == "merge":
@@ -481,6 +511,8 @@ def coq_case(c):
         es = c["sem"] if c["sem"] is not None else "exc:Unsupported"
         return "CFull %s %s %s %s %s %s %s %s" % (cbools(c["script"]), "T" if c["dflt"] else "F", al, sp,
                                                  cstr(c["a"]), cstr(c["b"]), cexp(c["main"], cseg), cexp(es, cseg))
+    if k == "bis":
+        return "CBis %s %s %s %s" % (cbools(c["script"]), "T" if c["dflt"] else "F", cstr(c["a"]), cstr(c["b"]))
     if k == "sem":
         al, sp = classes(*[t for _, t in c["d"]])
         return "CSem %s %s %s %s" % (al, sp, cseg(c["d"]), cexp(c["out"], cseg))
@@ -497,6 +529,8 @@ def oracle(c):
         if not why and c["sem"] is not None:
             why = oracle_diff(c["a"], c["b"], c["sem"], "diff_main + diff_cleanupSemantic")
         return why
+    if k == "bis":
+        return None
     if k in ("sem", "merge"):
         # arbitrary lists: the reconstructions must be kept (emptiness is only claimed for diff_main's output)
         o = c["out"]
@@ -585,7 +619,8 @@ def main(run):
     for name, kinds in (("diff_main + diff_cleanupSemantic vs XV.DMP.diff_main / diff_cleanupSemantic", ("full",)),
                         ("diff_cleanupSemantic on arbitrary segment lists", ("sem",)),
                         ("diff_cleanupMerge on arbitrary segment lists", ("merge",)),
-                        ("_realign_placeholders + _join_delete_insert vs XV.DMP.realign / join_delete_insert", ("realign",))):
+                        ("_realign_placeholders + _join_delete_insert vs XV.DMP.realign / join_delete_insert", ("realign",)),
+                        ("model only: bisect_safe (hypothesis of C16_no_error_partial) on XV.DMP.bisect_core", ("bis",))):
         idx = [i for i, c in enumerate(cases) if c["kind"] in kinds]
         corr.append({"name": name, "cases": len(idx), "bad": [i for i in bad if cases[i]["kind"] in kinds], "log": log,
                      "describe": lambda i: describe(cases[i])})
@@ -618,13 +653,14 @@ def main(run):
         lens["%d-%d" % (k * 10, k * 10 + 9) if k < 9 else "90+"] = lens.get("%d-%d" % (k * 10, k * 10 + 9) if k < 9 else "90+", 0) + 1
     run.coverage.update({
         "evaluations": len(cases),
-        "distinct_nontrivial": len(nontrivial) + len({json.dumps(c["d"]) for c in cases if c["kind"] != "full" and c["d"]}),
+        "distinct_nontrivial": len(nontrivial) + len({json.dumps(c["d"]) for c in cases if c["kind"] in ("sem", "merge", "realign") and c["d"]}),
         "rule": "every pair of strings over {a,b,space} with lengths <= %d/%d under a clock that never expires [%d, exhaustive] and all pairs "
                 "<= 3/3 under an expired clock; seeded random letters/words/repeats/unicode pairs (one a mutation of the other in 60%%) and "
                 "texts > 100 characters built from lines (line mode), each under a scripted clock (never / always / expires after k tests / random); "
                 "random segment lists (with empty segments and adjacent equalities) for diff_cleanupSemantic and diff_cleanupMerge; "
-                "placeholder texts (balanced, mutated, unbalanced, arbitrary) through a real PlaceholderMaker for the re-balancing step. "
-                "non-trivial = both strings non-empty and different / segment list non-empty" % ((4, 4, nexh) if run.tier == "quick" else (6, 5, nexh)),
+                "placeholder texts (balanced, mutated, unbalanced, arbitrary) through a real PlaceholderMaker for the re-balancing step; "
+                "additionally the open hypothesis bisect_safe of C16_no_error_partial is tested on the model (all admissible pairs over {a,b} of lengths 2..%d, seeded longer ones under scripted clocks). "
+                "non-trivial = both strings non-empty and different / segment list non-empty" % ((4, 4, nexh, 6) if run.tier == "quick" else (6, 5, nexh, 8)),
         "exhaustive_small_scope": nexh,
         "input_distribution": {"group->count": groups, "len(a)+len(b)->count (full cases)": lens,
                                "clock tests answered (total)": sum(c.get("ticks", 0) for c in full),
